@@ -37,6 +37,8 @@ def gates(c, tier):
     out = [f"generator never produced class {f}" for f in GATE_FEATURES if c.get("feat:" + f, 0) == 0]
     if c.get("failed-pack-before-case", 0) == 0:
         out.append("no failing pack interleaved")
+    if c.get("generic-control-object-with-known-oid", 0) == 0:
+        out.append("no generic control object with a known OID")
     if c.get("options:non-default-encoding", 0) == 0:
         out.append("no message under a non-default string_encoding")
     return out
@@ -212,7 +214,53 @@ def str_twin(f):
 TRAILERS = [b"", b"", b"\x30", b"\x30\x03\x02\x01", b"\x00", b"\xff\xff", b"\x30\x84\x00\x00\x00\x05\x02\x01\x01"]
 
 
+def generic_known_oid_cases():
+    """A generic LDAPControl object carrying an OID the library knows (an application or proxy that does not use the
+    typed classes): the decoded control - of the known type - has the same type string, criticality and value octets, and
+    re-encodes to the same bytes."""
+    out = []
+    paged_values = [sl.PagedResultControl(critical=False, size=s_, cookie=c_).get_value(sl.ControlOptions()) for s_, c_ in ((0, b""), (100, b"ck"), (2**31 - 1, b"\x00" * 130))]
+    for oid, values in ((av.SHOWDEL_OID, [None, b"", b"\x00", b"abc"]), (av.SHOWDEACT_OID, [None, b"", b"\x00", b"abc"]), (av.PAGED_OID, paged_values)):
+        for critical in (False, True):
+            for value in values:
+                for op in ("ExtendedRequest", "SearchResultDone"):
+                    out.append((oid, critical, value, op))
+    return out
+
+
+def check_generic_known(case):
+    oid, critical, value, op = case
+    ctl = sl.LDAPControl(oid, critical, value)
+    if op == "ExtendedRequest":
+        msg = sl.ExtendedRequest(message_id=1, controls=[ctl, sl.LDAPControl("1.2.3.4.5", False, b"x")], name="1.2.3", value=None)
+    else:
+        msg = sl.SearchResultDone(message_id=1, controls=[ctl], result=sl.LDAPResult(sl.LDAPResultCode.SUCCESS, "", "", None))
+    opts = sl._messages.PackingOptions()
+    out = []
+    try:
+        data = msg.pack(opts)
+        rd = sl.asn1.ASN1Reader(data)
+        back = sl._messages.unpack_ldap_message(rd, opts)
+        c2 = back.controls[0]
+        if (c2.control_type, c2.critical, c2.value) != (oid, critical, value):
+            out.append((f"generic-control-with-known-oid:{'value' if c2.value != value else 'other'}", f"LDAPControl({oid!r}, {critical}, {value!r}) decodes as type={c2.control_type!r} critical={c2.critical} value={c2.value!r}"))
+        if back.pack(opts) != data:
+            out.append(("generic-control-with-known-oid:repack", f"LDAPControl({oid!r}, {critical}, {value!r}): re-encoding the decoded message gives different bytes"))
+        if rd.get_remaining_data():
+            out.append(("generic-control-with-known-oid:consumed", "bytes left over"))
+    except Exception as e:
+        out.append((f"generic-control-with-known-oid:exc:{type(e).__name__}", f"LDAPControl({oid!r}, {critical}, {value!r}): {type(e).__name__}: {e}"))
+    return out
+
+
 def run_shard(ctx: Ctx, acc: Acc):
+    if ctx.shard % 4 == 2:
+        for case in generic_known_oid_cases():
+            acc.case()
+            acc.count("generic-control-object-with-known-oid")
+            acc.nontrivial("gk", case)
+            for key, what in check_generic_known(case):
+                acc.violation(key, what, {"generic_known": case})
     n = ctx.scale(160_000, 3_000_000)
     prof = gv.THOROUGH if ctx.thorough else gv.QUICK
     for i in range(n):
@@ -256,6 +304,9 @@ def run_shard(ctx: Ctx, acc: Acc):
 
 
 def replay(w):
+    if w.get("generic_known"):
+        c = w["generic_known"]
+        return check_generic_known((c[0], c[1], None if c[2] is None else bytes(c[2]), c[3]))
     if w.get("before"):
         check_one(to_tuple(w["before"]), b"")
     return check_one(to_tuple(w["message"]), bytes(w["trailer"]), bool(w.get("shared_options")), tuple(w["enc"]) if w.get("enc") else None)
